@@ -243,10 +243,10 @@ where StandardNormal: Distribution<F>, Exp1: Distribution<F>, Open01: Distributi
     let mut push = |fam: &str, params: Vec<F>, got: Result<F, String>, wa: u64, refv: Result<F, String>, wb: u64, tag: &Value, out: &mut Vec<String>| {
         match (got, refv) {
             (Ok(g), Ok(r)) => { let finite = g.is_finite() && r.is_finite();
-                out.push(json!({"op": "wire", "fam": fam, "ft": F::NAME, "res": "Ok", "wa": wa, "wb": wb, "finite": finite, "same_class": class_of(g) == class_of(r),
+                out.push(json!({"op": "wire", "fam": fam, "ft": F::NAME, "res": "Ok", "wa": wa, "wb": wb, "finite": finite, "same_class": class_of(g) == class_of(r), "gcls": class_of(g),
                     "got": if finite { ord_limbs(g) } else { vec![0, 0, 0] }, "ref": if finite { ord_limbs(r) } else { vec![0, 0, 0] },
                     "show": [format!("{:e}", g), format!("{:e}", r)], "params": params.iter().map(|x| format!("{:e}", x)).collect::<Vec<_>>(), "stream": tag}).to_string()); }
-            (g, r) => out.push(json!({"op": "wire", "fam": fam, "ft": F::NAME, "res": format!("Panic: {:?} / {:?}", g.err(), r.err()), "wa": wa, "wb": wb, "finite": false, "same_class": false,
+            (g, r) => out.push(json!({"op": "wire", "fam": fam, "ft": F::NAME, "res": format!("Panic: {:?} / {:?}", g.err(), r.err()), "wa": wa, "wb": wb, "finite": false, "same_class": false, "gcls": "panic",
                     "got": [0, 0, 0], "ref": [0, 0, 0], "params": params.iter().map(|x| format!("{:e}", x)).collect::<Vec<_>>(), "stream": tag}).to_string()),
         }
     };
@@ -289,7 +289,7 @@ where StandardNormal: Distribution<F>, Exp1: Distribution<F>, Open01: Distributi
         for (mn, mx, md, sh) in [(f(0.0), f(8.0), f(2.0), f(2.0)), (f(-4.0), f(4.0), f(1.0), f(6.0)), (f(0.0), f(1.0), f(0.5), f(4.0)), (f(2.0), f(10.0), f(10.0), f(2.0)), (f(0.0), f(16.0), f(4.0), f(6.0)), (f(0.0), f(6.0), f(0.0), f(1.0))] {
             let mean = (mn + sh * md + mx) / (sh + f(2.0));
             let Ok(d) = Pert::new(mn, mx).with_shape(sh).with_mean(mean) else {
-                out.push(json!({"op": "wire", "fam": "Pert(with_mean)", "ft": F::NAME, "res": "Panic: constructor rejects the mean of a valid mode", "wa": 0, "wb": 0, "finite": false, "same_class": false,
+                out.push(json!({"op": "wire", "fam": "Pert(with_mean)", "ft": F::NAME, "res": "Panic: constructor rejects the mean of a valid mode", "wa": 0, "wb": 0, "finite": false, "same_class": false, "gcls": "panic",
                     "got": [0, 0, 0], "ref": [0, 0, 0], "params": [format!("{:e}", mn), format!("{:e}", mx), format!("{:e}", mean), format!("{:e}", sh)], "stream": tag}).to_string());
                 continue };
             let (mut ra, mut rb) = (rng0.clone(), rng0.clone());
